@@ -200,7 +200,19 @@ def replay_consumer(kit, shapes, beh):
             'shapes': {str(t): {'resp': s[0], 'reps': s[1], 'direct': s[2]} for t, s in shapes.items()}}
 
 
+def concurrent_requests(run):
+    """Transaction ids under concurrent requests: all interleavings (Threads.tla, lock granularity incl. the lock of the
+    id counter) of two / three operation requests on real threads; judged by ThreadsTrace (transaction_ids_*)."""
+    from verif.checks import c07
+    scenarios = [('O_unknown_a', 'O_unknown_b'), ('O_unknown_a', 'O_unknown_b', 'O_unknown_c')]
+    if not run.quick:
+        scenarios.append(('O_setstring_a', 'O_unknown_b'))
+    c07.run_scenarios(run, scenarios, run.pick(80, 600), {'transaction_ids_unique', 'transaction_ids_increase',
+                                                          'request_answered'}, prefix='c09')
+
+
 def check(run, replay_path=None):
+    concurrent_requests(run)
     # ---- provider part
     res = run_tlc('InvocationMC', 'Invocation_prov.cfg', workers=1, timeout=600)
     run.add_tlc(res)
